@@ -66,7 +66,7 @@ func genBigBoot(t *rapid.T) cliCase {
 }
 
 func genCLI(t *rapid.T) cliCase {
-	if rapid.IntRange(0, 39).Draw(t, "bigboot") == 0 {
+	if rapid.IntRange(0, 39).Draw(t, "bigboot")%20 == 13 {
 		return genBigBoot(t)
 	}
 	var c cliCase
